@@ -230,6 +230,29 @@ func Vals(key uint16, shape, n int, seed uint64) []uint32 {
 			}
 			out = append(out, k<<16|l)
 		}
+	case 9: // n short runs (2-3 values) on a 31-value grid - n around 2048..2056 is where a run chunk
+		// of more than 4096 values is as large as a bitmap chunk; an odd seed makes the last run
+		// reach 65535
+		if n < 1 {
+			n = 1
+		}
+		if n > 2100 {
+			n = 2100
+		}
+		for i := 0; i < n; i++ {
+			st := uint32(i*31 + r.Intn(4))
+			l := uint32(2 + r.Intn(2))
+			if i == n-1 && seed&1 == 1 {
+				st, l = 65536-uint32(2+r.Intn(200)), 0
+				for v := st; v <= 65535; v++ {
+					out = append(out, base|v)
+				}
+				break
+			}
+			for j := uint32(0); j < l; j++ {
+				out = append(out, base|(st+j))
+			}
+		}
 	case 8: // break-even between the array and the run encoding: a few long consecutive
 		// stretches plus isolated values, so that the value count N and the run count k satisfy
 		// N - 2k in {-1,0,1,2} (array: 2N bytes, runs: 2+4k bytes); n selects nothing here
